@@ -91,6 +91,27 @@ theorem map_range_eq' {β} (l : List β) (n : Nat) (hn : n = l.length) (g : Nat 
     (h : ∀ i (hi : i < l.length), g i = l[i]) : (List.range n).map g = l := by
   subst hn; exact map_range_eq l g h
 
+/-! ### sub-rectangles -/
+
+theorem sliceRow_take {α} (row : List α) (w tlx dx : Nat) (h : tlx + dx ≤ w) :
+    sliceRow tlx dx (sliceRow 0 w row) = sliceRow tlx dx row := by
+  simp only [sliceRow, List.drop_zero, List.drop_take, List.take_take]
+  rw [Nat.min_eq_left (by omega)]
+
+/-- the row-wise readers read a sub-rectangle as the crop of what they read with default settings: for EVERY byte string,
+    offset function, row decoder, and every rectangle inside the `w × h` image -/
+theorem readRows_crop {α} (file : Bytes) (off : Nat → Nat) (len : Nat) (rowDec : Bytes → List α) (s : Settings) (w h : Nat)
+    (hin : s.Inside w h) :
+    readRows file off len rowDec s w h = crop s (readRows file off len rowDec Settings.full w h) := by
+  obtain ⟨hx, hy⟩ := hin
+  simp only [readRows, crop, Settings.full, Settings.dimX, Settings.dimY, if_true, Nat.add_zero] at *
+  congr 1
+  apply List.ext_getElem
+  · simp; omega
+  · intro i h1 h2
+    simp only [List.getElem_map, List.getElem_range, List.getElem_take, List.getElem_drop]
+    rw [sliceRow_take _ w s.tlx _ hx, Nat.add_comm]
+
 /-! ### BMP -/
 
 theorem toI32_small {x : Nat} (h : x < 2147483648) : toI32 x = (x : Int) := by simp [toI32, h]
@@ -114,6 +135,84 @@ theorem bmpReadHeader_bmpHeader (w h nch : Nat) (rest : Bytes) (hw : w < 2147483
   simp [e1, e2, e3, toI32_small hw, toI32_small hh, hneg]
 
 /-! ### TARGA -/
+
+theorem reverse_map_range {β} (n : Nat) (g : Nat → β) :
+    ((List.range n).map g).reverse = (List.range n).map (fun r => g (n - 1 - r)) := by
+  apply List.ext_getElem
+  · simp
+  · intro i h1 h2
+    simp only [List.length_reverse, List.length_map, List.length_range] at h1
+    simp [List.getElem_reverse]
+
+/-- the stored-scanline offset of destination row `j` of the whole image -/
+def tgaRowOff (info : TgaInfo) (j : Nat) : Nat :=
+  let rs := info.width * (info.bpp / 8)
+  if info.originBit then info.offset + j * rs else info.offset + (info.height - 1 - j) * rs
+
+/-- reader::read_data (seek once, read `dim.y` scanlines, fill the view bottom-up) reads row `y` of the region from
+    the stored scanline of image row `y + top_left.y` -/
+theorem tgaReadRaw_eq {α} (f : PixFmt α) (file : Bytes) (info : TgaInfo) (s : Settings)
+    (hin : s.Inside info.width info.height) :
+    tgaReadRaw f file info s =
+      readRows file (tgaRowOff info) (info.width * (info.bpp / 8)) (decRow f info.width) s info.width info.height := by
+  obtain ⟨_, hy⟩ := hin
+  unfold tgaReadRaw readRows tgaRowOff
+  cases hb : info.originBit
+  · -- bottom-up file
+    simp only [Bool.false_eq_true, if_false]
+    congr 1
+    rw [reverse_map_range]
+    apply List.map_congr_left
+    intro r hr
+    have hr' : r < s.dimY info.height := List.mem_range.1 hr
+    have e : (info.height - s.tly - s.dimY info.height) + (s.dimY info.height - 1 - r) = info.height - 1 - (r + s.tly) := by omega
+    simp only [readAt]
+    rw [Nat.add_assoc, ← Nat.add_mul, e]
+  · simp only [if_true]
+    congr 1
+    apply List.map_congr_left
+    intro r _
+    simp only [readAt]
+    rw [Nat.add_assoc, ← Nat.add_mul, Nat.add_comm s.tly r]
+
+def tgaRleRowOff (info : TgaInfo) (j : Nat) : Nat :=
+  let rs := info.width * (info.bpp / 8)
+  if info.originBit then j * rs else (info.height - 1 - j) * rs
+
+/-- reader::read_rle_data: same statement over the decoded `image_data` -/
+theorem tgaReadRle_eq {α} (f : PixFmt α) (file : Bytes) (info : TgaInfo) (s : Settings)
+    (hin : s.Inside info.width info.height) :
+    tgaReadRle f file info s =
+      (tgaRlePackets (info.bpp / 8) (info.width * info.height * (info.bpp / 8) + 1) (file.drop info.offset)
+          (info.width * info.height * (info.bpp / 8))).map fun data =>
+        readRows data (tgaRleRowOff info) (info.width * (info.bpp / 8)) (decRow f info.width) s info.width info.height := by
+  obtain ⟨_, hy⟩ := hin
+  simp only [tgaReadRle]
+  split
+  · rename_i hp; rw [hp]; rfl
+  · rename_i data hp
+    rw [hp]
+    simp only [Option.map_some]
+    congr 1
+    unfold readRows tgaRleRowOff
+    cases hb : info.originBit
+    · simp only [Bool.false_eq_true, if_false]
+      congr 1
+      apply List.map_congr_left
+      intro r _
+      simp only [readAt]
+      rw [Nat.add_comm s.tly r]
+    · simp only [if_true]
+      congr 1
+      rw [reverse_map_range]
+      apply List.map_congr_left
+      intro r hr
+      have hr' : r < s.dimY info.height := List.mem_range.1 hr
+      have e : info.height - 1 - (info.height - s.tly - s.dimY info.height + (s.dimY info.height - 1 - r)) = r + s.tly := by omega
+      simp only [readAt]
+      rw [e]
+
+/-! ### TARGA header -/
 
 theorem length_tgaHeader (w h nch : Nat) : (tgaHeader w h nch).length = 18 := rfl
 
